@@ -78,7 +78,7 @@ class GFamily:
 
 def run_batches(fam, report, batches, invariants, properties, log=print, crosscheck_per_dut=40,
                 stallbound_factor=1, max_violations_per_batch=6, tlc_timeout=3000, spec_budget=60000,
-                heap="12g", followup=True, total_budget=900000):
+                heap="12g", followup=True, total_budget=900000, on_accept=None):
     """batches: list of lists of (spec, cfg).  Fills `report`.  Returns list of per-DUT stats."""
     all_stats = []
     queue = [(list(b), list(invariants), list(properties)) for b in batches]
@@ -100,6 +100,8 @@ def run_batches(fam, report, batches, invariants, properties, log=print, crossch
                 if not res.violated:
                     n = gl.crosscheck(per_dut=crosscheck_per_dut, seed=report.seed)
                     report.add(reference_evaluator_crosschecks=n)
+                    if on_accept is not None:
+                        on_accept(gl)       # L2 lanes: the complete graphs are handed to the model conformance check
             finally:
                 gl.close()
             report.add(states=res.distinct, transitions=res.generated, impl_states=st["impl_states"],
